@@ -119,3 +119,15 @@ def run(ctx):
         for f, c in be.unresolved[:10]:
             rep.info("%s: opcode argument of %s in %s not constant-resolvable: %s" % (target, c.name, f.name, unparse(c.args()[1])[:60]))
     rep.floor("R-GUARD", 600)
+    # The verdicts above hold for "the flags under which a rule is reached".  That a rule is reached only when all the
+    # required flags of its rule set are present, and that nothing remembers a lookup made under other flags, is the
+    # premise; it is decided by C20-D2's rules, re-run here so that C11 does not pass on a tree where it fails.
+    import importlib
+    c20 = importlib.import_module("rules.c20")
+    c20.d2(db, rep, "R-GUARD-PREMISE")
+    gr_ = db.func("orc_target_get_rule", "orctarget")
+    memo = [n for n in gr_.walk() if n.k == "DeclRefExpr" and n.get("dk") in ("global", "static_local") and n.name not in ("targets", "n_targets")]
+    rep.check(not memo, "R-GUARD-PREMISE", where(gr_), "lookup-is-stateless",
+              "rule lookup depends on its arguments only",
+              "orc_target_get_rule reads or writes process-wide state (%s): a lookup made under one flag set can be answered from one made under another" %
+              sorted({n.name for n in memo})[:4])
